@@ -1,12 +1,62 @@
 /-
-  Line-protocol handlers for C06.  `handle` receives the tokens after the property id.
+  Line-protocol handlers for C06 (crossover recombines parental material; point mutation is local).
 -/
 import GEVerif.Model.Sexp
+import GEVerif.Model.Linear
+import GEVerif.Model.TreeOps
+import GEVerif.Drive.Val
+import GEVerif.Drive.C07
 
 namespace GEVerif.Drive.C06
-open GEVerif Sexp
+open GEVerif Sexp GEVerif.Drive GEVerif.Drive.C07
+
+def sgeSx (d : SGEDna) : Sexp := list (d.map fun (k, v) => list [atom k, ofInts v])
+
+def res1 {α : Type} (f : α → Sexp) (r : Res α) : Sexp := resSx f r
 
 def handle : List Sexp → Option Sexp
+  | [atom "lin_create", len, draws] => do
+      pure (res1 ofInts (linCreate (← len.asNat?) (mkSynSt (← draws.asNats?))))
+  | [atom "lin_mutate", len, top, dna, draws] => do
+      pure (res1 ofInts (linMutate (← len.asNat?) (← top.asInt?) (← dna.asInts?) (mkSynSt (← draws.asNats?))))
+  | [atom "lin_crossover", cut, p1, p2, draws] => do
+      pure (res1 (fun (c : List Int × List Int) => list [ofInts c.1, ofInts c.2])
+        (linCrossover (← cut.asInt?) (← p1.asInts?) (← p2.asInts?) (mkSynSt (← draws.asNats?))))
+  | [atom "sge_mutate", dna, draws] => do
+      pure (res1 sgeSx (sgeMutate (← parseSGE dna) (mkSynSt (← draws.asNats?))))
+  | [atom "sge_crossover", p1, p2, draws] => do
+      pure (res1 (fun (c : SGEDna × SGEDna) => list [sgeSx c.1, sgeSx c.2])
+        (sgeCrossover (← parseSGE p1) (← parseSGE p2) (mkSynSt (← draws.asNats?))))
+  | [atom "dsge_mutate", dna, draws] => do
+      pure (res1 dsgeSx (dsgeMutate (← parseDSGE dna) (mkSynSt (← draws.asNats?))))
+  | [atom "dsge_crossover", p1, p2, draws] => do
+      pure (res1 (fun (c : DSGEDna × DSGEDna) => list [dsgeSx c.1, dsgeSx c.2])
+        (dsgeCrossover (← parseDSGE p1) (← parseDSGE p2) (mkSynSt (← draws.asNats?))))
+  -- property predicates on implementation outputs
+  | [atom "prop_locus", p1, p2, c] => do
+      let p1 ← p1.asInts?; let p2 ← p2.asInts?; let c ← c.asInts?
+      pure (ofBool (locusOK p1 p2 c))
+  | [atom "prop_mutate_one", p, c] => do
+      let p ← p.asInts?; let c ← c.asInts?
+      pure (ofBool (p.length == c.length && decide (diffCount p c ≤ 1)))
+  | [atom "prop_sge_locus", p1, p2, c] => do
+      let p1 ← parseSGE p1; let p2 ← parseSGE p2; let c ← parseSGE c
+      -- same keys as parent 1, and each gene list is one parent's list for that key
+      pure (ofBool (c.map (·.1) == p1.map (·.1) &&
+        c.all fun (k, v) => v == sgeLookup k p1 || v == sgeLookup k p2))
+  | [atom "prop_sge_mutate_one", p, c] => do
+      let p ← parseSGE p; let c ← parseSGE c
+      let diffs := (p.zip c).map fun ((_, a), (_, b)) => if a.length == b.length then diffCount a b else 2
+      pure (ofBool (c.map (·.1) == p.map (·.1) && decide (diffs.sum ≤ 1)))
+  | [atom "prop_dsge_locus", p1, p2, c] => do
+      let p1 ← parseDSGE p1; let p2 ← parseDSGE p2; let c ← parseDSGE c
+      pure (ofBool (c.all fun (k, v) => v == tyLookup k [] p1 || v == tyLookup k [] p2))
+  | [atom "prop_dsge_mutate_one", p, c] => do
+      let p ← parseDSGE p; let c ← parseDSGE c
+      let diffs := (p.zip c).map fun ((_, a), (_, b)) => if a.length == b.length then diffCount a b else 2
+      pure (ofBool (p.length == c.length && ((p.zip c).all fun ((k, _), (k', _)) => k == k') && decide (diffs.sum ≤ 1)))
+  | [atom "prop_recomb", p1, p2, c] => do
+      pure (ofBool (isRecombination (← parseVal p1) (← parseVal p2) (← parseVal c)))
   | _ => none
 
 end GEVerif.Drive.C06
